@@ -53,6 +53,17 @@ Theorem c07_same_as_direct :
   normal_command now s c dbi parts oracle = normal_command now s 0 dbi parts oracle.
 Proof. exact conn_id_irrelevant. Qed.
 
+(** Serial equivalence: EXEC produces exactly the replies and the final state that the
+    connection would get by sending the queued commands itself, one after the other, with no
+    other client in between - for every queue of commands MULTI accepts (SELECT excepted:
+    known class select-in-multi), every state, every time. *)
+Theorem c07_exec_is_back_to_back :
+  forall now c q s cn acc,
+  c <> 0 -> zlookup c (s_conns s) = Some cn -> authed_or_open s cn = true -> c_intx cn = false ->
+  forallb plain_queued q = true ->
+  exec_queue now s (c_db cn) q acc = direct_run now s c q acc.
+Proof. exact exec_is_back_to_back. Qed.
+
 (** DISCARD drops the queue and the watched keys; no data is touched. *)
 Theorem c07_discard :
   forall now s c cn oracle,
